@@ -90,6 +90,11 @@ func formatClauses(S string, mode Mode, o *Observed) {
 		o.Findings = append(o.Findings, Finding{Kind: "comment-added", Detail: fmt.Sprintf("the output has %d comment(s) the source does not have: %q", len(extra), extra), Lost: extra})
 	}
 
+	// the constants of the program: every string literal must keep its value
+	if d := compareStringValues(S, F); d != "" {
+		o.Findings = append(o.Findings, Finding{Kind: "string-literal-changed", Detail: d})
+	}
+
 	// the re-format uses the same mode the CLI would be given for F
 	F2, err := cliFormat(F, mode)
 	if err != nil {
